@@ -19,11 +19,26 @@ func init() {
 			m = newMetrics()
 			p.CollectMetrics(m)
 		}
+		var known []uint64
+		ref := func(h uint64) int64 {
+			r := p.admit.freq.Estimate(h)
+			if p.admit.door.Has(h) {
+				r++
+			}
+			return r
+		}
 		return func(op []string) string {
 			switch op[0] {
 			case "est":
 				p.Lock()
 				h := vu(op[1])
+				seen := false
+				for _, k := range known {
+					seen = seen || k == h
+				}
+				if !seen {
+					known = append(known, h)
+				}
 				for i := 0; i < 40 && p.admit.Estimate(h) < vi(op[2]); i++ {
 					p.admit.Increment(h)
 				}
@@ -33,8 +48,26 @@ func init() {
 			case "estcheck":
 				p.Lock()
 				e := p.admit.Estimate(vu(op[1]))
+				r := ref(vu(op[1]))
 				p.Unlock()
+				if e != r {
+					// the admission estimate is the count-min count plus the doorkeeper bit
+					return fmt.Sprintf("%d ref=%d", e, r)
+				}
 				return fmt.Sprint(e)
+			case "age":
+				// the sketch ages (counters halved, doorkeeper cleared) as it does after NumCounters increments
+				p.Lock()
+				p.admit.reset()
+				ks := make([]string, 0, len(known))
+				for _, h := range known {
+					ks = append(ks, fmt.Sprintf("%d:%d", h, ref(h)))
+				}
+				p.Unlock()
+				if len(ks) == 0 {
+					return "ok -"
+				}
+				return "ok " + strings.Join(ks, ",")
 			case "add":
 				victims, added := p.Add(vu(op[1]), vi(op[2]))
 				vs := make([]string, 0, len(victims))
